@@ -708,6 +708,9 @@ func (st *Runtime) evalPrimaryExpressionGroup(node Expression) reflect.Value {
 	case NodeCallExpr:
 		node := node.(*CallExprNode)
 		baseExpr := st.evalBaseExpressionGroup(node.BaseExpr)
+		if !baseExpr.IsValid() {
+			node.errorf("node %q is nil, not a function", node.BaseExpr)
+		}
 		if baseExpr.Kind() != reflect.Func {
 			node.errorf("node %q is not func kind %q", node.BaseExpr, baseExpr.Type())
 		}
@@ -1294,6 +1297,9 @@ func (st *Runtime) evalCommandExpression(node *CommandNode) (reflect.Value, bool
 			return ret, false
 		}
 		node.BaseExpr.errorf("command %q has arguments but is %s, not a function", node.BaseExpr, term.Type())
+	}
+	if !term.IsValid() && node.Exprs != nil {
+		node.BaseExpr.errorf("command %q has arguments but is nil, not a function", node.BaseExpr)
 	}
 	return term, false
 }
